@@ -39,6 +39,10 @@ EXPLANATION = (
     "the result writer when 'results' is absent. Decides these structural "
     "necessary conditions, not the runtime behaviour of the OS.")
 
+EXPLANATION += (
+    ' Round 5: settings are forwarded at every call (R-FWD/parameter-forwarded).'
+)
+
 RULE_TEXT = (
     "one obligation per (rule, construct): spawn site x collection, exit-"
     "code test, removal site, handler, (stage, output write, spawn point), "
@@ -159,6 +163,10 @@ def check(ctx):
     # --- the mapping run -----------------------------------------------------
     check_run_mapping(ctx)
     check_blob_to_hdf5(ctx)
+    # settings this property depends on are handed down every call
+    # chain, never left to a callee's default (sa/rules/forwarding.py)
+    from ..rules.forwarding import check_forwarding
+    check_forwarding(ctx, {'n_processors', 'output_list', 'output_lock'})
 
 
 class _Advisory(object):
